@@ -103,6 +103,14 @@ def vars_of(I, obj):
     if c in ("Add", "Multiply") and is_slist(obj.fields.get("_inners")):
         from . import gmode
         sl = obj.fields["_inners"]
+        if isinstance(sl, gmode.ReplacedList):
+            # variables of the other entries: a set W(j) with W(j) subset Vars(whole list) (one-sided, sound)
+            W = z3.Function(f"VarsWithout[{sl.base.tag}]", z3.IntSort(), sym.NameSet)
+            t = W(sl.j)
+            if not gmode.keying():
+                whole = gmode.bigunion(I, sl.base.length, lambda u: vars_of(I, sl.base.elem(u)), f"Vars({sl.base.tag})")
+                gmode.qm(I).links.append(sym.subset(t, whole))
+            return sym.union(t, vars_of(I, sl.new))
         if isinstance(sl, gmode.SnocList):
             t = gmode.bigunion(I, sl.rest.length, lambda u: vars_of(I, sl.rest.elem(u)), f"Vars({obj.name})")
             for pobj in sl.suffix:
@@ -321,6 +329,24 @@ def _gmode_den(I, obj, pt):
     """Add / Multiply of symbolic arity: big operators over the children family."""
     from . import gmode
     sl = obj.fields["_inners"]
+    if isinstance(sl, gmode.ReplacedList):
+        # operands = a list with its j-th entry replaced by `new`:
+        #   sum = sum(whole) - V_j + V_new;  product = prodwo(j, n) * V_new  with  prod(whole) = V_j * prodwo(j, n)
+        #   (spec/lemmas.lean: ax_bigprod_split_entry);  definedness: (all entries defined) and D_new => defined
+        base, j, dn = sl.base, sl.j, den(I, sl.new, pt)
+        ek = lambda t: den(I, base.elem(t), pt)
+        DW = z3.Function(f"Dwithout[{base.tag}|{point_name(I, pt)}]", z3.IntSort(), z3.BoolSort())
+        if obj.cls.name == "Add":
+            V = gmode.bigsum(I, lambda t: ek(t).V, base.length) - ek(j).V + dn.V
+        else:
+            pw = gmode.bigprod_without(I, lambda u: ek(u).V, j, base.length)
+            V = pw * dn.V
+            if not gmode.keying():
+                gmode.qm(I).links.append(gmode.bigprod(I, lambda t: ek(t).V, base.length) == ek(j).V * pw)
+        if not gmode.keying():
+            allD = gmode.forall_const(I, base.length, lambda t: ek(t).D, f"D({base.tag})")
+            gmode.qm(I).links.append(z3.Implies(allD, DW(j)))
+        return Den(z3.And(DW(j), dn.D), V, _no_dv)
     if isinstance(sl, gmode.ConcatList):
         big = gmode.bigsum if obj.cls.name == "Add" else gmode.bigprod
         Ds, V = [], None
